@@ -98,6 +98,21 @@ pub fn apply_alpha<P: Px>(px: &mut [P], w: usize, h: usize, ap: &AlphaPat) {
                 }
                 9 => if x < split { 0.0 } else { amax },
                 10 => if x < split { amax } else { 0.0 },
+                12 => {
+                    // blocks of 2/4/8/16 pixels, each wholly transparent, wholly opaque or mixed, starting at a random phase
+                    // (kernels that test a whole vector of alphas at once see uniform and half-uniform groups)
+                    let b = [2usize, 4, 8, 16][period % 4];
+                    let blk = (x + phase) / b;
+                    let half = ((x + phase) % b) * 2 / b;
+                    match mix64(ap.seed ^ (blk as u64).wrapping_mul(0x9E37_79B9) ^ ((y as u64) << 40)) % 8 {
+                        0 | 1 => 0.0,
+                        2 | 3 => amax,
+                        4 => if half == 0 { amax } else { rnd(&mut rng) },
+                        5 => if half == 0 { 0.0 } else { rnd(&mut rng) },
+                        6 => if half == 0 { rnd(&mut rng) } else { amax },
+                        _ => rnd(&mut rng),
+                    }
+                }
                 _ => {
                     // runs of opaque / transparent / partial pixels of random length 1..12 along each row
                     if run_left == 0 {
@@ -111,6 +126,10 @@ pub fn apply_alpha<P: Px>(px: &mut [P], w: usize, h: usize, ap: &AlphaPat) {
             comps[i] = P::C::from_f64(a);
         }
     }
+}
+
+fn mix64(x: u64) -> u64 {
+    crate::rng::mix(x)
 }
 
 /// Planes of f64 (one per component), row-major.
